@@ -2,6 +2,7 @@ package c09
 
 import (
 	"encoding/json"
+	"errors"
 	"fmt"
 	"os"
 	"sort"
@@ -38,6 +39,20 @@ type Cfg struct {
 	Access    []string `json:"access"`
 	Kinds     []string `json:"kinds"` // get call auth new access
 	Queue     string   `json:"queue"` // "<default>" or value
+	// Split, when non-empty, spreads the kinds over several nested handlers instead of one
+	// handler on ">" (Kinds stays the union).
+	Split []HSpec `json:"split,omitempty"`
+	// FailSub > 0 makes the connection refuse the FailSub-th subscription.
+	FailSub int `json:"failSub,omitempty"`
+	// Restart serves the service, shuts it down and serves it again on a new connection;
+	// the guarantees are checked on the second connection.
+	Restart bool `json:"restart,omitempty"`
+}
+
+// HSpec is one handler of a split registration.
+type HSpec struct {
+	Pattern string   `json:"pattern"`
+	Kinds   []string `json:"kinds"`
 }
 
 func (c Cfg) String() string { b, _ := json.Marshal(c); return string(b) }
@@ -51,10 +66,8 @@ func has(l []string, s string) bool {
 	return false
 }
 
-func build(c Cfg) *res.Service {
-	s := res.NewService(c.Name)
-	s.SetLogger(nil)
-	s.SetWorkerCount(2)
+func kindOpts(kinds []string) []res.Option {
+	c := Cfg{Kinds: kinds}
 	var opts []res.Option
 	if has(c.Kinds, "get") {
 		opts = append(opts, res.GetResource(func(r res.GetRequest) { r.Model(map[string]int{"a": 1}) }))
@@ -71,7 +84,19 @@ func build(c Cfg) *res.Service {
 	if has(c.Kinds, "access") {
 		opts = append(opts, res.Access(res.AccessGranted))
 	}
-	s.Handle(">", opts...)
+	return opts
+}
+
+func build(c Cfg) *res.Service {
+	s := res.NewService(c.Name)
+	s.SetLogger(nil)
+	s.SetWorkerCount(2)
+	if len(c.Split) == 0 {
+		s.Handle(">", kindOpts(c.Kinds)...)
+	}
+	for _, h := range c.Split {
+		s.Handle(h.Pattern, kindOpts(h.Kinds)...)
+	}
 	if c.Explicit {
 		s.SetOwnedResources(c.Resources, c.Access)
 	}
@@ -133,15 +158,38 @@ func set(l []string) string {
 }
 
 type served struct {
-	conn   *fakeconn.Conn
-	s      *res.Service
-	exited chan error
-	ok     bool
+	conn    *fakeconn.Conn
+	s       *res.Service
+	exited  chan error
+	ok      bool
+	failed  bool // the injected subscription failure fired
+	stopped bool
 }
 
 func serve(c Cfg) *served {
-	sv := &served{conn: fakeconn.New(), s: build(c), exited: make(chan error, 1)}
+	s := build(c)
+	if c.Restart {
+		first := serveOn(s, Cfg{})
+		first.stop()
+		if !first.ok {
+			return first
+		}
+	}
+	return serveOn(s, c)
+}
+
+func serveOn(s *res.Service, c Cfg) *served {
+	sv := &served{conn: fakeconn.New(), s: s, exited: make(chan error, 1)}
 	sv.conn.Strict = true
+	if k := c.FailSub; k > 0 {
+		sv.conn.FailSubscribe = func(subject string, n int) error {
+			if n == k {
+				sv.failed = true
+				return errors.New("injected subscribe failure")
+			}
+			return nil
+		}
+	}
 	started := make(chan struct{})
 	sv.s.SetOnServe(func(*res.Service) { close(started) })
 	go func() { sv.exited <- sv.s.Serve(sv.conn) }()
@@ -156,6 +204,10 @@ func serve(c Cfg) *served {
 }
 
 func (sv *served) stop() {
+	if sv.stopped {
+		return
+	}
+	sv.stopped = true
 	if sv.ok {
 		_ = sv.s.Shutdown()
 	}
@@ -193,6 +245,13 @@ func check(c Cfg) (msg string, nontrivial bool) {
 			return "service with nothing to serve reported started", nontrivial
 		}
 		return "", nontrivial
+	}
+	if !sv.ok && sv.failed {
+		// a refused subscription makes Serve fail: nothing is promised
+		if n := len(sv.conn.Published("system.reset")); n != 0 {
+			return fmt.Sprintf("Serve failed on a refused subscription but sent %d system.reset", n), true
+		}
+		return "", true
 	}
 	if !sv.ok {
 		var subs []string
@@ -334,6 +393,22 @@ func genCfg() *rapid.Generator[Cfg] {
 			c.Kinds = []string{rapid.SampledFrom(all).Draw(t, "kind")}
 		}
 		c.Queue = rapid.SampledFrom([]string{"<default>", "<default>", "grp", ""}).Draw(t, "queue")
+		if rapid.IntRange(0, 2).Draw(t, "split") == 0 {
+			pool := []string{"a", "a.b", "a.$x", "a.b.c", "a.$x.c", "b.>", "b", "*.z.>"}
+			n := rapid.IntRange(2, 4).Draw(t, "nsplit")
+			start := rapid.IntRange(0, len(pool)-n).Draw(t, "splitfrom")
+			for i := 0; i < n; i++ {
+				c.Split = append(c.Split, HSpec{Pattern: pool[start+i]})
+			}
+			for _, k := range c.Kinds {
+				i := rapid.IntRange(0, n-1).Draw(t, "at-"+k)
+				c.Split[i].Kinds = append(c.Split[i].Kinds, k)
+			}
+		}
+		if rapid.IntRange(0, 5).Draw(t, "failsub") == 0 {
+			c.FailSub = rapid.IntRange(1, 8).Draw(t, "failnth")
+		}
+		c.Restart = rapid.IntRange(0, 3).Draw(t, "restart") == 0
 		return c
 	})
 }
@@ -376,7 +451,10 @@ func TestRealNATS(t *testing.T) {
 	seed := uint64(12345)
 	for i := 0; i < rapidCfgs; i++ {
 		seed += 7919
-		cfgs = append(cfgs, genCfg().Example(int(seed)))
+		gc := genCfg().Example(int(seed))
+		// one handler on ">" answers every request type it has: responses can be counted
+		gc.Split, gc.FailSub, gc.Restart = nil, 0, false
+		cfgs = append(cfgs, gc)
 	}
 	for _, c := range cfgs {
 		wantRes, wantAcc := expectedOwnership(c)
